@@ -536,3 +536,8 @@ def main(argv):
     except subprocess.TimeoutExpired as e:
         log("INFRASTRUCTURE PROBLEM (timeout):", e)
         return 2
+    except Exception as e:      # anything unexpected in the machinery itself (a missing scratch file, a full disk ...) is never a verdict
+        import traceback
+        traceback.print_exc()
+        log("INFRASTRUCTURE PROBLEM (internal error, exit 2, not a verdict):", repr(e))
+        return 2
